@@ -375,6 +375,9 @@ def case_enc(ctx, lines, expect, dt, ml, classes, yfit_vals, yfit_shape, ytr_val
         try:
             enc = le.transform(ytr)
             out.append(("ok " + " ".join(str(int(v)) for v in np.asarray(enc).ravel())).strip())
+            if np.asarray(enc).shape != np.asarray(ytr).shape:
+                # codes are element-wise: same shape as the labels, empty matrices (0, m) included
+                viol = ("transform-shape", f"transform(y) has shape {np.asarray(enc).shape}, y has shape {np.asarray(ytr).shape}")
         except Exception as e:
             out.append(err_enum(e))
         if ft is not None:
@@ -391,7 +394,7 @@ def case_enc(ctx, lines, expect, dt, ml, classes, yfit_vals, yfit_shape, ytr_val
                 rtl = np.asarray(rt).ravel().tolist()
                 if viol is not None:
                     pass
-                elif np.asarray(rt).shape != tuple(ytr_shape) and len(ytr_vals):
+                elif np.asarray(rt).shape != np.asarray(ytr).shape:
                     viol = ("roundtrip-shape", "inverse_transform(transform(y)) has a different shape than y")
                 elif len(rtl) != len(ytr_vals) or not all(same_label(a, b) for a, b in zip(rtl, ytr_vals)):
                     viol = ("roundtrip", "inverse_transform(transform(y)) does not reproduce y")
